@@ -1487,3 +1487,20 @@ for _n in (64, 65, 66, 67, 300):
     HARNESSES["c17_name_%d" % _n] = (lambda n: (lambda ctx: c17_name(ctx, n)))(_n)
 HARNESSES["c17_version_300"] = lambda ctx: c17_name(ctx, 300, "version")
 REPLAYERS["c17"] = (lambda prev: (lambda ctx, fl: replay_c17name(ctx, fl) if fl.get("kind") == "c17name" else prev(ctx, fl)))(REPLAYERS["c17"])
+
+
+def replay_c09lead(ctx, fl):
+    """Lead::new is crate-private: the same name through PackageBuilder::new(..).build() and Package::write, then the 96 lead bytes"""
+    name = bytes.fromhex(fl.get("name", ""))
+    ans = ctx.native.ask("lead_of", name.hex() or "-")
+    if ans.startswith("panic"):
+        return True, "real crate: PackageBuilder::new(name of %d bytes, ..).build() -> panic" % len(name)
+    if not ans.startswith("ok "):
+        return False, "real crate: " + ans[:100]
+    lead = bytes.fromhex(ans.split()[1])
+    m = min(len(name), 65)
+    good = len(lead) == 96 and lead[:8] == bytes([0xed, 0xab, 0xee, 0xdb, 3, 0, 0, 0]) and lead[10:10 + m] == name[:m] and lead[10 + m:76] == b"\0" * (66 - m) and lead[78:80] == b"\0\x05"
+    return not good, "real crate: lead of a package built with a %d-byte name: name field %s" % (len(name), "NUL-terminated" if lead[75:76] == b"\0" else "fills all 66 bytes without a terminator")
+
+
+REPLAYERS["c09"] = (lambda prev: (lambda ctx, fl: replay_c09lead(ctx, fl) if fl.get("kind") == "c09lead" else prev(ctx, fl)))(REPLAYERS["c09"])
